@@ -623,6 +623,7 @@ func (m c17) namedID(c *Ctx) {
 }
 
 func (m c17) Directed(c *Ctx) {
+	sameNameCheck(c, "C17")
 	m.namedID(c)
 	c.Name = "witness-equal-ignores-field-names"
 	t := TypeSpec{Name: "t", Attrs: []AttrSpec{{Name: "a", Kind: KInt}}}
